@@ -34,7 +34,7 @@ _GET_PEEK_NEW = '''        self._token_counter += 1
         return self._tokens[min(self._token_counter + ahead, len(self._tokens) - 1)]
 '''
 
-_READ_ITEM_OLD = '''        if data_type.value.upper() not in cls._subclasses_by_sml:
+_READ_ITEM_OLD = '''        if not data_type.value.isascii() or data_type.value.upper() not in cls._subclasses_by_sml:
             raise data_type.exception(f"unknown data type '{data_type.value}'")
 
         return cls._subclasses_by_sml[data_type.value.upper()].from_sml(parser)'''
@@ -45,19 +45,23 @@ MUTANTS = [
     ("bool-text-swapped", "secsgem/secs/item_boolean.py", 'return "0x1" if value else "0x0"', 'return "0x0" if value else "0x1"'),
     ("number-separator-dropped", "secsgem/secs/item.py", 'values_string = " ".join([', 'values_string = "".join(['),
     ("float-format-g", "secsgem/secs/item_number.py", 'return f"{value}"', 'return f"{value:g}"'),
-    ("str-hex-prefix-dropped-after-literal", "secsgem/secs/item_str.py", "data += '\" ' + hex(ord(output))", "data += '\" ' + hex(ord(output))[2:]"),
-    ("str-printable-flag-not-reset", "secsgem/secs/item_str.py", "                    data += \" \" + hex(ord(output))\n                last_char_printable = False", "                    data += \" \" + hex(ord(output))\n                last_char_printable = True"),
+    ("str-hex-prefix-dropped-after-literal", "secsgem/secs/item_str.py", "data += '\" ' + hex(output.encode(self._encoding)[0])", "data += '\" ' + hex(output.encode(self._encoding)[0])[2:]"),
+    ("str-printable-flag-not-reset", "secsgem/secs/item_str.py", "                    data += \" \" + hex(output.encode(self._encoding)[0])\n                last_char_printable = False", "                    data += \" \" + hex(output.encode(self._encoding)[0])\n                last_char_printable = True"),
     ("binary-format-no-prefix", "secsgem/secs/item_b.py", "return hex(value)", 'return f"{value:02x}"'),
     ("list-count-off-by-one", "secsgem/secs/item_l.py", "[{len(self._value)}]", "[{len(self._value) + 1}]"),
     # --- readers
-    ("str-strip-blanks-too", "secsgem/secs/item_str.py", "item.value.strip('\"')", "item.value.strip('\" ')"),
+    ("str-strip-blanks-too", "secsgem/secs/item_str.py", "item.value[1:-1].encode(", "item.value[1:-1].strip().encode("),
     ("literal-closed-by-any-quote", "secsgem/secs/sml.py", "if char == current_delimiter:", "if char in self.literal_delimiter:"),
     ("whitespace-splits-literals", "secsgem/secs/sml.py", "            if current_delimiter:\n                current_delimiter, current_token", "            if current_delimiter and char not in self.whitespaces:\n                current_delimiter, current_token"),
     ("operator-before-pending-token", "secsgem/secs/sml.py",
      "        if current_token:\n            self._tokens.append(SMLToken(current_token, location.line, location.column, self))\n            current_token = \"\"\n\n        self._tokens.append(SMLToken(char, self._line, self._col, self))\n        location.reset()",
      "        self._tokens.append(SMLToken(char, self._line, self._col, self))\n        if current_token:\n            self._tokens.append(SMLToken(current_token, location.line, location.column, self))\n            current_token = \"\"\n\n        location.reset()"),
     # --- rejection / termination
-    ("list-terminator-includes-square-bracket", "secsgem/secs/item.py", 'while parser.peek_token().value not in ">.":', 'while parser.peek_token().value not in ">.]":'),
+    ("list-terminator-includes-square-bracket", "secsgem/secs/item.py", 'while parser.peek_token().value != ">":', 'while parser.peek_token().value not in ">]":'),
     ("unknown-type-read-as-list", "secsgem/secs/item.py", _READ_ITEM_OLD, _READ_ITEM_NEW),
     ("token-index-clamped-at-end", "secsgem/secs/sml.py", _GET_PEEK_OLD, _GET_PEEK_NEW),
+    # --- long texts (population rt:long)
+    ("literal-closed-at-4095-characters", "secsgem/secs/sml.py", "        if char == current_delimiter:\n            current_token += char", "        if char == current_delimiter or len(current_token) >= 4095:\n            current_token += char"),
+    ("source-capped-at-64k", "secsgem/secs/sml.py", "            source = io.StringIO(source)", "            source = io.StringIO(source[:65536])"),
+    ("list-count-capped-at-999", "secsgem/secs/item_l.py", "[{len(self._value)}]", "[{min(len(self._value), 999)}]"),
 ]
